@@ -115,8 +115,13 @@ def trip(ctx, case):
             rec = TapeRecorder(spy)
             rec.enable_recording()
             kw = {} if limit_mb is None else {'intercepted_size_limit': limit_mb}
-            in_handler = InputInterceptionFileDataHandler(0 if static_in else 1, 'file_path', **kw)
-            out_handler = OutputInterceptionFileDataHandler(0, 'file_path', **kw)
+            in_cls, out_cls = InputInterceptionFileDataHandler, OutputInterceptionFileDataHandler
+            if case.get('derived_handlers'):
+                # the service's own subclasses of the handlers, with class attributes of their own (one is named like a constant of the base)
+                in_cls = type('ServiceInputFiles', (in_cls,), {'ABOVE_LIMIT_CONTENT': b'SKIPPED=', 'CHUNK': 4096})
+                out_cls = type('ServiceOutputFiles', (out_cls,), {'ABOVE_LIMIT_CONTENT': b'SKIPPED=', 'CHUNK': 4096})
+            in_handler = in_cls(0 if static_in else 1, 'file_path', **kw)
+            out_handler = out_cls(0, 'file_path', **kw)
             if case.get('relimit') is not None:
                 # handlers are created where the decorators are evaluated (import time); a service that learns its limit later sets the
                 # public attribute of the existing handlers
@@ -127,6 +132,11 @@ def trip(ctx, case):
                 state['fetch_bodies'] += 1
                 with open(file_path, 'wb') as f:      # the external system delivers the file
                     f.write(content)
+                if case.get('returns_sidecar'):
+                    # ... and reports the checksum file it wrote next to it (another existing file) as its result
+                    with open(file_path + '.sha256', 'wb') as f:
+                        f.write(b'0123456789abcdef  ' + os.path.basename(file_path).encode())
+                    return file_path + '.sha256'
                 return file_path
 
             def publish_body(file_path):
@@ -171,6 +181,8 @@ def trip(ctx, case):
                 if relative:
                     os.chdir(workdir)
                 got = self.fetch(file_path=src) if kw_in else self.fetch(src)
+                if case.get('returns_sidecar'):
+                    got = src                     # the service reads the file it asked for, the reported sidecar is only logged
                 if above:
                     data = content                # the service does not read huge files itself in this scenario
                 else:
@@ -251,6 +263,12 @@ def trip(ctx, case):
                     ctx.violation('%s holds %d entries for the file output' % (which, len(ent)), w)
                     continue
                 holder = out_handler.restore_output_from_recording(ent[0].value)
+                try:
+                    again = out_handler.restore_output_from_recording(ent[0].value)      # (comparison code restores an output as often as it likes)
+                    if again.file_content != holder.file_content:
+                        ctx.violation('restoring the %s file output a second time gives other content' % which, w)
+                except Exception as ex:
+                    ctx.violation('restoring the %s file output a second time raised %s (the first restore consumed the captured entry)' % (which, type(ex).__name__), w)
                 exp = placeholder if above else sent
                 ctx.count('output_holders_compared')
                 if holder.file_content != exp:
@@ -536,6 +554,18 @@ def holder_threads(ctx, quick):
             recorded = handler.prepare_output_for_recording('output: files.publish #1', (src,), {})
             holderbox = {}
 
+            # a captured output is restored as often as the comparison code likes (once per extractor call, once more to look at it)
+            try:
+                first = handler.restore_output_from_recording(recorded).file_content
+                second = handler.restore_output_from_recording(recorded).file_content
+            except Exception as ex:
+                ctx.violation('restoring the same recorded file output a second time raised %s (the restore consumed the recorded entry)' % type(ex).__name__,
+                              {'kind': 'holder_threads', 'size': size})
+                continue
+            if first != content or second != content:
+                ctx.violation('restoring the same recorded file output twice does not give the file bytes both times', {'kind': 'holder_threads', 'size': size})
+                continue
+
             def make(sched):
                 holder = handler.restore_output_from_recording(recorded)
                 got = {}
@@ -778,6 +808,17 @@ def run(ctx):
                 case = dict(shapes(rng), seed=base + idx, content_kind=kind, cassette=cassette)
                 ctx.case(case)
                 ctx.count('encoded_content_trips')
+                trip(ctx, case)
+    # the input function reports ANOTHER existing file as its result; the service's own handler subclasses
+    for vi, extra in enumerate([{'returns_sidecar': True}, {'returns_sidecar': True, 'size': 4097, 'limit_mb': 4096 / float(MIB), 'above': True},
+                                {'derived_handlers': True}, {'derived_handlers': True, 'size': 4097, 'limit_mb': 4096 / float(MIB), 'above': True},
+                                {'derived_handlers': True, 'size': 4096, 'limit_mb': 4096 / float(MIB)}]):
+        for cassette in ('memory', 'file', 's3'):
+            idx += 1
+            if ctx.mine(idx) and (not ctx.quick or (vi + idx) % 2 == 0 or extra.get('above')):
+                case = dict(shapes(rng), seed=base + idx, cassette=cassette, **extra)
+                ctx.case(case)
+                ctx.count('sidecar_and_derived_handler_trips')
                 trip(ctx, case)
     # the limit of existing handlers is changed after they were constructed (lowered below / raised above the file size)
     for built_with, now, size in ((1, 1024 / float(MIB), 2000), (1024 / float(MIB), 1, 2000), (None, 1024 / float(MIB), 1025), (1024 / float(MIB), 2048 / float(MIB), 2048),
